@@ -406,7 +406,7 @@ func forLoopsRuleSSA(r *Run) {
 		}
 		res := ssa.Value(nil)
 		errV := ssa.Value(nil)
-		for _, ref := range *blockCall.Referrers() {
+		for _, ref := range p.referrers(blockCall) {
 			if ex, ok := ref.(*ssa.Extract); ok {
 				if ex.Index == 0 {
 					res = ex
@@ -441,7 +441,7 @@ func forLoopsRuleSSA(r *Run) {
 			tn := exitTypeName(ta.AssertedType)
 			if strings.HasSuffix(tn, "Object") && declaredIn(ta.AssertedType, modPath) {
 				kind = tn
-				for _, ref := range *ta.Referrers() {
+				for _, ref := range p.referrers(ta) {
 					if e0, ok := ref.(*ssa.Extract); ok && e0.Index == 0 {
 						typed = e0
 					}
@@ -754,7 +754,7 @@ func forIterableRuleSSA(r *Run) {
 			for _, ev := range p.events {
 				if call, ok := ev.(*ssa.Call); ok && call.Call.StaticCallee() == m.expr {
 					if x, isF := isFieldLoadOf(p.resolve(call.Call.Args[1]), astPath, "ForExpression", "Iterable"); isF && p.resolve(x) == ssa.Value(fn.Params[1]) {
-						for _, ref := range *call.Referrers() {
+						for _, ref := range p.referrers(call) {
 							if ex, ok := ref.(*ssa.Extract); ok && ex.Index == 0 {
 								iter = ex
 							}
